@@ -41,6 +41,8 @@ inductive RPc
   | sent     -- the error was taken; sleeping, then `continue`
   | exit     -- yield chan.read.exit: deferred exit (`readLoopExited.Store(true); close(readLoopDone)`)
   | dead     -- goroutine terminated
+  | never    -- the read loop was never started (Close before Open / after an Open that failed
+             -- before `go c.read()`): `readLoopDone` is nil, nobody will ever close it
   deriving DecidableEq, Repr, Inhabited
 
 /-- an in-flight operation: two consecutive `Channel.Read()` calls made by the user's goroutine -/
@@ -123,7 +125,7 @@ def Left.toNat : Left → Nat | .zero => 0 | .one => 1 | .two => 2
 def Left.pred : Left → Left | .two => .one | _ => .zero
 def RPc.toNat : RPc → Nat
   | .top => 0 | .pre => 1 | .inRead => 2 | .postOk => 3 | .postEof => 4 | .postErr => 5
-  | .send => 6 | .parked => 7 | .sent => 8 | .exit => 9 | .dead => 10 | .woken => 11
+  | .send => 6 | .parked => 7 | .sent => 8 | .exit => 9 | .dead => 10 | .woken => 11 | .never => 12
 def OPc.toNat : OPc → Nat
   | .absent => 0 | .start => 1 | .errs => 2 | .flag => 3 | .deq => 4 | .ret => 5
 def KPc.toNat : KPc → Nat
@@ -140,7 +142,7 @@ def allMode : List Mode := [.eofOnClose, .errOnClose, .stay]
 def allFeed : List Feed := [.quiet, .data, .eof, .err]
 def allLeft : List Left := [.zero, .one, .two]
 def allBool : List Bool := [false, true]
-def allRPc : List RPc := [.top, .pre, .inRead, .postOk, .postEof, .postErr, .send, .parked, .woken, .sent, .exit, .dead]
+def allRPc : List RPc := [.top, .pre, .inRead, .postOk, .postEof, .postErr, .send, .parked, .woken, .sent, .exit, .dead, .never]
 def allKPc : List KPc := [.idle, .ncDone, .ncChan, .entry, .signal, .select, .nice, .niceLk, .force, .chanRet, .ret]
 def allNPc : List NPc := [.absent, .top, .pre, .cErrs, .cFlag, .cDeq, .send, .parked, .woken, .sent, .dead]
 def allWPc : List WPc := [.absent, .start, .select, .parked, .got, .ret]
@@ -148,7 +150,7 @@ def allOPc : List OPc := [.absent, .start, .errs, .flag, .deq, .ret]
 
 /-- upper bound on the number of further steps of the read loop once `done` is closed -/
 def RPc.rank : RPc → Nat
-  | .dead => 0 | .exit => 1 | .top => 2 | .postEof => 2 | .woken => 2 | .sent => 3 | .postOk => 3 | .parked => 4
+  | .dead => 0 | .never => 0 | .exit => 1 | .top => 2 | .postEof => 2 | .woken => 2 | .sent => 3 | .postOk => 3 | .parked => 4
   | .send => 5 | .postErr => 6 | .inRead => 7 | .pre => 8
 
 /-- upper bound on the number of further steps of one `Close` call -/
@@ -191,7 +193,7 @@ def RPc.label : RPc → String
   | .top => "chan.read.top" | .pre => "chan.read.pre" | .inRead => "blocked"
   | .postOk => "chan.read.post" | .postEof => "chan.read.post" | .postErr => "chan.read.post"
   | .send => "chan.read.send" | .parked => "blocked" | .woken => "~" | .sent => "~" | .exit => "chan.read.exit"
-  | .dead => "dead"
+  | .dead => "dead" | .never => "never"
 
 def OPc.label : OPc → String
   | .absent => "absent" | .start => "start" | .errs => "chan.Read.errs" | .flag => "chan.Read.flag"
